@@ -438,6 +438,23 @@ def _parse_output(loaded, mode, folder):
     return rep
 
 
+def _settle(folder: Path, quiet: float = 0.3, limit: float = 6.0):
+    """After a parallel computation failed, tasks of other runs may still be writing: wait until the
+    directory has not changed for `quiet` seconds."""
+    def snap():
+        return sorted((q.name, q.stat().st_size) for q in folder.iterdir())
+
+    t0 = time.time()
+    last, since = snap(), time.time()
+    while time.time() - t0 < limit:
+        time.sleep(0.05)
+        now = snap()
+        if now != last:
+            last, since = now, time.time()
+        elif time.time() - since >= quiet:
+            return
+
+
 def _listing(folder: Path, pre_bytes: dict):
     files = []
     for q in sorted(folder.iterdir()):
@@ -525,6 +542,8 @@ def flow(p):
     rep = _parse_output(loaded, mode, folder)
     if isinstance(rep, dict):
         return rep
+    if err is not None and mode == "dask":
+        _settle(folder)
     files = _listing(folder, pre_bytes)
     return dict(err=err, rep=sorted(rep), files=files, detail=crash, folder_is_new=True)
 
@@ -666,6 +685,8 @@ def hist(p):
             rep = _parse_output(loaded, mode, at)
             if isinstance(rep, dict):
                 return rep
+        elif mode == "dask":
+            _settle(at)
         return dict(ep=ep, dir=rel(d), at=rel(at), err=err, rep=sorted(rep),
                     files=_listing(at, pre_by_dir.get(rel(at), {})), detail=detail)
 
